@@ -7,6 +7,15 @@ int c_islin(int nval, double thresh, double tol, int npoints,
     int ierr=0, i, k, count, start, lintype;
     double dist, vprec, vnext, vcur;
 
+    /* series too short to hold a linear stretch
+     * (data[1] and islin[1] do not exist) */
+    if(nval < 1)
+        return ierr;
+
+    islin[0] = 0;
+    if(nval < 2)
+        return ierr;
+
     /* initialisation */
     vprec = data[0];
     if(isnan(vprec)) vprec = thresh-1;
